@@ -10,5 +10,6 @@ CONSTANTS
  FixDoubleDec = TRUE
  FixUnbounded = TRUE
  FixWouldBlock = FALSE
+ CoalesceWake = FALSE
 INVARIANTS TypeOK Framing NoDuplicateFrame MetadataFirstAndOrder CountConsistent QueueConservation NoTornFrame StartsUp
 CHECK_DEADLOCK FALSE
